@@ -228,7 +228,10 @@ pub fn oracle(scn: &SenderScn, ctx: &Ctx, trace: &SenderTrace) {
         // published: an instance of this run that lists a single object)
         let publication_can_fail = (scn.spec.oti.scheme == Scheme::Raptor && scn.spec.oti.e > 64) || (matches!(scn.spec.oti.scheme, Scheme::Rs28 | Scheme::Rs28Us) && scn.spec.oti.parity == 0);
         let single_ok = txs.iter().any(|x| x.complete_at.is_some() && x.doc.as_ref().map(|d| d.files.len() == 1).unwrap_or(false));
-        if !triggered && o.target.is_none() && (!publication_can_fail || (single_ok && !scn.spec.full_fdt)) {
+        // (a trigger with a time may postpone the object: not modelled; a trigger WITHOUT a time only clears the carousel
+        // wait - the object is due at once, on the caller's clock)
+        let triggered_at_time = trace.ops.iter().any(|r| matches!(r.op, Op::Trigger { obj, at_us: Some(_) } if obj == i));
+        if !triggered_at_time && o.target.is_none() && (!publication_can_fail || (single_ok && !scn.spec.full_fdt)) {
             let published_seq = if scn.spec.full_fdt {
                 add_seq(trace, i).and_then(|a| trace.ops.iter().find(|r| r.seq > a && r.result == OpResult::Published(true)).map(|r| r.seq))
             } else {
@@ -254,21 +257,31 @@ pub fn oracle(scn: &SenderScn, ctx: &Ctx, trace: &SenderTrace) {
                         }
                     };
                     let gone = removed.unwrap_or(u64::MAX);
+                    // an immediate trigger received while the object waits: due from then on as soon as its start time allows
+                    let trig_seq = trace
+                        .ops
+                        .iter()
+                        .filter(|r| matches!(r.op, Op::Trigger { obj, at_us: None } if obj == i) && r.result == OpResult::Triggered(true) && r.seq > from_seq)
+                        .map(|r| r.seq)
+                        .min();
+                    let base_due_us = o.start_ms.map(|m| m * 1000).unwrap_or(0);
                     for (pi, p) in trace.polls.iter().enumerate() {
                         let end_seq = trace.polls.get(pi + 1).map(|n| n.seq_begin).unwrap_or(u64::MAX);
+                        let due_by_trigger = trig_seq.map(|ts| p.seq_begin > ts && p.t_us > base_due_us + 1000).unwrap_or(false);
                         // a read that returns nothing at all: the sender is idle (no other object holds it up)
-                        if p.drained && p.n_pkts == 0 && p.seq_begin > from_seq && p.t_us > due_us + 1000 && end_seq < gone {
+                        if p.drained && p.n_pkts == 0 && p.seq_begin > from_seq && (p.t_us > due_us + 1000 || due_by_trigger) && end_seq < gone {
                             violate(
                                 ctx,
                                 "C12/due-object-not-transferred",
                                 if o.carousel.is_some() { "carousel" } else { "-" },
                                 format!(
-                                    "toi={}: {} transfer(s) done of {}{}, the next one is due since +{} us, yet the read at +{} us returned 'nothing to send' and no transfer started",
+                                    "toi={}: {} transfer(s) done of {}{}, the next one is due since +{} us{}, yet the read at +{} us returned 'nothing to send' and no transfer started",
                                     toi,
                                     done,
                                     o.max_transfer_count,
                                     if o.carousel.is_some() { " per carousel cycle" } else { "" },
-                                    due_us.saturating_sub(t0_us()),
+                                    if p.t_us > due_us + 1000 { due_us } else { base_due_us }.saturating_sub(t0_us()),
+                                    if p.t_us > due_us + 1000 { "" } else { " (trigger_transfer_at without a time)" },
                                     p.t_us.saturating_sub(t0_us())
                                 ),
                             );
